@@ -41,6 +41,36 @@ type Layout struct {
 	BigPad     int    `json:"big_pad"`   // bytes of padding comment-free whitespace in content streams
 	ParmsShape int    `json:"parms_shape"`
 	Seed       uint64 `json:"seed"`
+	// ObjHook, when set, may rewrite every object just before it is written (fault injection):
+	// plain objects expose Body, streams expose Dict (without /Length) and the encoded Data.
+	ObjHook func(o *RawObj) `json:"-"`
+	// XrefHook may rewrite a cross-reference section before it is written.
+	XrefHook func(x *RawXref) `json:"-"`
+}
+
+// RawObj is one object on its way into the file. Drop suppresses it, Twice writes it twice.
+type RawObj struct {
+	Ordinal int
+	Num     int
+	Stream  bool
+	Body    string
+	Dict    string
+	Data    []byte
+	Drop    bool
+	Twice   bool
+	// LengthOverride replaces the /Length value text when non-empty.
+	LengthOverride string
+}
+
+// RawXref is one cross-reference section on its way into the file.
+type RawXref struct {
+	Ordinal int
+	Stream  bool
+	Entries map[int]XEntry
+	Trailer string
+	Prev    int64
+	W       [3]int
+	Size    int
 }
 
 // PNode is the authored page tree (for the model op and the oracle).
@@ -490,6 +520,8 @@ func RenderPDF(doc LDoc, lay Layout) Rendered {
 
 	p := NewPDF(lay.EOL)
 	prev := int64(-1)
+	ordinal := 0
+	xordinal := 0
 	for rev := 0; rev <= lay.Revisions; rev++ {
 		entries := map[int]XEntry{}
 		if rev == 0 {
@@ -516,12 +548,26 @@ func RenderPDF(doc LDoc, lay Layout) Rendered {
 			if !o.stream {
 				body := o.body(num) // plain objects are rewritten unchanged in later revisions
 				_ = staleNow
+				raw := RawObj{Ordinal: ordinal, Num: num(o.key), Body: body}
+				ordinal++
+				if lay.ObjHook != nil {
+					lay.ObjHook(&raw)
+				}
+				if raw.Drop {
+					continue
+				}
 				if useStm && r.Chance(3, 4) {
-					entries[num(o.key)] = XEntry{Type: 2} // patched below
-					packed = append(packed, ObjStmMember{Num: num(o.key), Body: body})
+					entries[raw.Num] = XEntry{Type: 2} // patched below
+					packed = append(packed, ObjStmMember{Num: raw.Num, Body: raw.Body})
+					if raw.Twice {
+						packed = append(packed, ObjStmMember{Num: raw.Num, Body: raw.Body})
+					}
 				} else {
-					off := p.Obj(num(o.key), 0, body)
-					entries[num(o.key)] = XEntry{Type: 1, F1: off}
+					off := p.Obj(raw.Num, 0, raw.Body)
+					entries[raw.Num] = XEntry{Type: 1, F1: off}
+					if raw.Twice {
+						p.Obj(raw.Num, 0, raw.Body)
+					}
 				}
 				continue
 			}
@@ -546,8 +592,21 @@ func RenderPDF(doc LDoc, lay Layout) Rendered {
 					pending = &h
 				}
 			}
-			off := p.Stream(num(o.key), dict, enc, lenRef)
-			entries[num(o.key)] = XEntry{Type: 1, F1: off}
+			raw := RawObj{Ordinal: ordinal, Num: num(o.key), Stream: true, Dict: dict, Data: enc}
+			ordinal++
+			if lay.ObjHook != nil {
+				lay.ObjHook(&raw)
+			}
+			if raw.Drop {
+				continue
+			}
+			p.LengthOverride = raw.LengthOverride
+			off := p.Stream(raw.Num, raw.Dict, raw.Data, lenRef)
+			p.LengthOverride = ""
+			entries[raw.Num] = XEntry{Type: 1, F1: off}
+			if raw.Twice {
+				p.Stream(raw.Num, raw.Dict, raw.Data, lenRef)
+			}
 			if pending != nil {
 				if useStm && r.Bool() {
 					entries[pending.num] = XEntry{Type: 2}
@@ -568,6 +627,12 @@ func RenderPDF(doc LDoc, lay Layout) Rendered {
 			entries[stm] = XEntry{Type: 1, F1: off}
 		}
 		trailer := fmt.Sprintf("/Root %d 0 R", num(kCat))
+		rx := RawXref{Ordinal: xordinal, Stream: xrefStream, Entries: entries, Trailer: trailer, Prev: prev, W: [3]int{1, 4, 2}, Size: nextNum + len(objs)*4 + 10}
+		xordinal++
+		if lay.XrefHook != nil {
+			lay.XrefHook(&rx)
+			entries, trailer = rx.Entries, rx.Trailer
+		}
 		if xrefStream {
 			xn := nextNum
 			nextNum++
@@ -575,9 +640,9 @@ func RenderPDF(doc LDoc, lay Layout) Rendered {
 			if lay.Filters >= 3 {
 				pred = hx.Pick(r, []int{0, 12, 10, 11, 13, 14, 15})
 			}
-			prev = p.XrefStream(xn, entries, trailer, prev, [3]int{1, 4, 2}, lay.Filters > 0, pred, nextNum+len(objs)*4+10)
+			prev = p.XrefStream(xn, entries, trailer, rx.Prev, rx.W, lay.Filters > 0, pred, rx.Size)
 		} else {
-			prev = p.XrefTable(entries, trailer+fmt.Sprintf(" /Size %d", nextNum+len(objs)*4+10), prev, hx.Pick(r, []string{" \n", "\r\n", " \r"}))
+			prev = p.XrefTable(entries, trailer+fmt.Sprintf(" /Size %d", rx.Size), rx.Prev, hx.Pick(r, []string{" \n", "\r\n", " \r"}))
 		}
 	}
 	return Rendered{Data: p.Buf.Bytes(), Tree: root, Leaves: leaves}
